@@ -130,7 +130,7 @@ def resource_stream(F, S):
     rets = returns(fn)
     root_ev = lambda site: any(f[0] == "ev" and f[1] == "passed" and f[2][0] == "false" and f[2][1][0] == "call"
                                and f[2][1][1] == XF + "HasRootComponent" and f[2][1][3] == (fname,) for f in site)
-    kinds = {"loose": 0, "none-disabled": 0, "archive": 0, "none-final": 0}
+    kinds = {"loose": 0, "none-disabled": 0, "archive": 0, "none-final": 0, "none-merged": 0}
     for r in rets:
         site = final_site_facts(eng, fn, r["id"]) or set()
         defs = {k: v for k, v in c05.alias_defs(fn).items() if "__begin" not in repr(v)}
@@ -167,6 +167,13 @@ def resource_stream(F, S):
                 kind = "none-disabled"
                 good = rooted and exists_t and exists_t[0][0] == "false"
                 req = "with archive access disabled, nothing is returned exactly when no loose file exists"
+            elif not acc_f:
+                # one `return nullptr` shared by "access disabled" and "tried every archive" (`if (access) { loop } return nullptr;`):
+                # it must lie after the archive loop, not inside it
+                kind = "none-merged"
+                in_loop = any(l["k"] in ("ForStmt", "CXXForRangeStmt", "WhileStmt", "DoStmt") and r["id"] in fn.subtree(l["id"]) for l in fn.nodes)
+                good = rooted and exists_t and exists_t[0][0] == "false" and not in_loop
+                req = "nothing is returned only when no loose file exists and, if archive access is enabled, after every archive was tried"
             else:
                 kind = "none-final"
                 good = rooted and exists_t and exists_t[0][0] == "false" and acc_f and acc_f[0][0] == "true"
@@ -177,9 +184,9 @@ def resource_stream(F, S):
             out.append(ok("R-ORDER", inst, fn.loc(r["id"]), fn.qn, req, "facts at the return: " + facts_txt({f for f in site if f[0] in ("true", "false")})))
         else:
             out.append(bad("R-ORDER", inst, fn.loc(r["id"]), fn.qn, req, "facts at the return: " + facts_txt({f for f in site if f[0] in ("true", "false")})))
-    for k, v in kinds.items():
-        if v != 1:
-            raise AnalysisBroken("GetResourceStream: expected exactly one '%s' return, found %d" % (k, v))
+    none_ok = (kinds["none-disabled"], kinds["none-final"], kinds["none-merged"]) in ((1, 1, 0), (0, 0, 1))
+    if kinds["loose"] != 1 or kinds["archive"] != 1 or not none_ok:
+        raise AnalysisBroken("GetResourceStream: unexpected set of returns %s" % kinds)
     # the final nullptr comes after the loop over all archives
     return out
 
@@ -191,9 +198,11 @@ def ctor_order(F):
     fn = cs[0]
     seq = []
     for nd in fn.nodes:
-        if nd["k"] == "CXXMemberCallExpr" and nd.get("fname") == "GetFilesFromDirectory":
-            t = fn.term(nd["args"][0])
-            seq.append((nd["id"], "list", repr(t)))
+        if nd["k"] in CALLS:
+            # a directory listing by extension under the resource root (through the forwarding helper or directly)
+            t = fn.term(nd["id"])
+            if t[0] == "call" and t[1] == XF + "DirFilesWithExtension" and len(t[3]) == 2 and t[3][0] == ("mem", ("this",), "resourceRootDir"):
+                seq.append((nd["id"], "list", repr(t[3][1])))
         if nd["k"] in CALLS and (nd.get("fq") or "").startswith("std::make_unique") and nd.get("targs"):
             seq.append((nd["id"], "make", nd["targs"][0].get("record") or nd["targs"][0].get("ct")))
     seq.sort()
@@ -240,7 +249,7 @@ def type_listing(F, S):
             for d in nd.get("decls", []):
                 if ("var", d.get("n"), d.get("d")) == cont and "init" in d:
                     it = fn.term(d["init"])
-                    seeded = it == F.call_value(RM + "::GetFilesFromDirectory", ("this",), (ext,), pred=lambda f: "basic_string" in f.key.split("(")[1])
+                    seeded = it == ("call", XF + "DirFilesWithExtension", None, (("mem", ("this",), "resourceRootDir"), ext))
     good = seeded and all(fn.term(r["value"]) == cont for r in rets)
     inst = RM + "::GetAllFilenamesOfType#same-list"
     if good:
